@@ -98,6 +98,16 @@ def tetrad_to_graph(filename: str, graph_type):
     return G
 
 
+def _has_typed_edge(G, u, v, edge_name_attr: str) -> bool:
+    """Check for an edge (u, v) of the edge type that is named by ``G.<edge_name_attr>``.
+
+    A graph class that does not support the edge type (e.g. circle edges in an ADMG,
+    bidirected edges in a CPDAG) has no such edge.
+    """
+    edge_type = getattr(G, edge_name_attr, None)
+    return edge_type is not None and G.has_edge(u, v, edge_type)
+
+
 def graph_to_tetrad(G, filename: str):
     """Convert a pywhy causal graph to a tetrad text file.
 
@@ -132,16 +142,31 @@ def graph_to_tetrad(G, filename: str):
             if nbr in graph_edge_dict[node] or node in graph_edge_dict[nbr]:
                 continue
 
-            # process edge types among all possible nodes
-            if G.has_edge(node, nbr, G.directed_edge_name):
-                if not G.has_edge(nbr, node):
-                    node_nbr_str = "-->"
-                elif G.has_edge(nbr, node, G.circle_edge_name):
+            # process edge types among all possible nodes: the endpoint at each of
+            # the two nodes is an arrowhead, a circle or a tail
+            if _has_typed_edge(G, node, nbr, "directed_edge_name"):
+                if _has_typed_edge(G, nbr, node, "circle_edge_name"):
                     node_nbr_str = "o->"
-            elif G.has_edge(node, nbr, G.bidirected_edge_name):
+                else:
+                    node_nbr_str = "-->"
+            elif _has_typed_edge(G, nbr, node, "directed_edge_name"):
+                if _has_typed_edge(G, node, nbr, "circle_edge_name"):
+                    node_nbr_str = "<-o"
+                else:
+                    node_nbr_str = "<--"
+            elif _has_typed_edge(G, node, nbr, "bidirected_edge_name"):
                 node_nbr_str = "<->"
-            elif G.has_edge(node, nbr, G.undirected_edge_name):
+            elif _has_typed_edge(G, node, nbr, "undirected_edge_name"):
                 node_nbr_str = "---"
+            elif _has_typed_edge(G, node, nbr, "circle_edge_name"):
+                if _has_typed_edge(G, nbr, node, "circle_edge_name"):
+                    node_nbr_str = "o-o"
+                else:
+                    node_nbr_str = "--o"
+            elif _has_typed_edge(G, nbr, node, "circle_edge_name"):
+                node_nbr_str = "o--"
+            else:
+                raise RuntimeError(f"There is no tetrad edge for the edge between {node} and {nbr}.")
 
             graph_edge_dict[node][nbr] = node_nbr_str
 
